@@ -52,20 +52,28 @@ ReserveRatioBits(r) ==
   IN IF BIsZero(colS) THEN TWO48 ELSE TruncDiv(BMul(liqS, TWO48), colS)
 KaminoAdj(raw, ratioBits) == BFloorDiv(BMul(raw, ratioBits), TWO48)
 
+\* Drift-backed collateral (setup 9): Pyth price and confidence multiplied by the market's cumulative deposit interest
+\* (10^10 = 1.0), integer arithmetic; a market whose interest was not brought up to the current second is unusable.
+SETUP_DRIFT_PYTH == 9
+MarketsOf(s) == IF Has(s, "markets") THEN s.markets ELSE <<>>
+DriftAdj(raw, cum) == BFloorDiv(BMul(raw, cum), BPow10(10))
+
 \* Price record for bank bn as presented in event e at state s.  ptype in {"RT","TW"}.
 \* usable in {"yes","no","maybe"} ("maybe" = within rounding of the confidence threshold: don't care)
 RefPrice(s, e, bn, ptype) ==
   LET b == s.banks[bn] setup == b.cfg.oracle_setup now == s.clock.ts IN
   IF setup = SETUP_FIXED THEN [usable |-> "yes", known |-> TRUE, p |-> R(b.cfg.fixed_price), ci |-> RZero]
-  ELSE IF setup \notin {SETUP_PYTH, SETUP_SWB, SETUP_STAKED, SETUP_KAMINO_PYTH} THEN [usable |-> "maybe", known |-> FALSE, p |-> RZero, ci |-> RZero]
+  ELSE IF setup \notin {SETUP_PYTH, SETUP_SWB, SETUP_STAKED, SETUP_KAMINO_PYTH, SETUP_DRIFT_PYTH} THEN [usable |-> "maybe", known |-> FALSE, p |-> RZero, ci |-> RZero]
+  ELSE IF setup = SETUP_DRIFT_PYTH /\ ~Has(MarketsOf(s), b.cfg.oracle_keys[2]) THEN [usable |-> "maybe", known |-> FALSE, p |-> RZero, ci |-> RZero]
   ELSE IF setup = SETUP_KAMINO_PYTH /\ ~Has(ReservesOf(s), b.cfg.oracle_keys[2]) THEN [usable |-> "maybe", known |-> FALSE, p |-> RZero, ci |-> RZero]
   ELSE
   LET key == b.cfg.oracle_keys[1] pres == PresentedOracle(e, bn, b)
       staked == setup = SETUP_STAKED
       kam == setup = SETUP_KAMINO_PYTH
+      dri == setup = SETUP_DRIFT_PYTH
       pools == IF staked THEN PoolFor(s, b.cfg.oracle_keys[2], b.cfg.oracle_keys[3]) ELSE {}
       slotsOk == /\ staked => (PresentedSlot(e, bn, b, 2) = b.cfg.oracle_keys[2] /\ PresentedSlot(e, bn, b, 3) = b.cfg.oracle_keys[3])
-                 /\ kam => PresentedSlot(e, bn, b, 2) = b.cfg.oracle_keys[2]
+                 /\ (kam \/ dri) => PresentedSlot(e, bn, b, 2) = b.cfg.oracle_keys[2]
   IN
   IF pres # key \/ ~Has(s.oracles, key) \/ ~slotsOk THEN [usable |-> "no", known |-> TRUE, p |-> RZero, ci |-> RZero]
   ELSE IF staked /\ pools = {} THEN [usable |-> "maybe", known |-> FALSE, p |-> RZero, ci |-> RZero]
@@ -74,14 +82,17 @@ RefPrice(s, e, bn, ptype) ==
       pool == IF staked THEN s.pools[CHOOSE pn \in pools : TRUE] ELSE [stake |-> BZero, supply |-> BOne, state |-> "stake"]
       res == IF kam THEN s.reserves[b.cfg.oracle_keys[2]] ELSE [slot |-> BZero, owner_ok |-> TRUE]
       ratio == IF kam THEN ReserveRatioBits(res) ELSE TWO48
+      mkt == IF dri THEN s.markets[b.cfg.oracle_keys[2]] ELSE [ts |-> BZero, owner_ok |-> TRUE, cum |-> BPow10(10)]
       poolOk == /\ staked => (pool.state = "stake" /\ BIsPos(pool.supply) /\ BGe(pool.stake, LAMPORTS_PER_SOL))
                 \* the reserve must be the venue's account and refreshed in the current slot; a negative ratio is an arithmetic failure
                 /\ kam => (res.owner_ok /\ BGe(res.slot, s.clock.slot) /\ ~BIsNeg(ratio))
+                /\ dri => (mkt.owner_ok /\ BGe(mkt.ts, s.clock.ts))
       \* raw integer price scaled by the pool's exchange rate (truncating division, as the adapter does before anything else)
       Adj(raw) == IF staked /\ poolOk THEN BFloorDiv(BMul(raw, BSub(pool.stake, LAMPORTS_PER_SOL)), pool.supply)
-                  ELSE IF kam /\ poolOk THEN KaminoAdj(raw, ratio) ELSE raw
-      AdjC(raw) == IF kam /\ poolOk THEN KaminoAdj(raw, ratio) ELSE raw
-      kindOk == (setup \in {SETUP_PYTH, SETUP_STAKED, SETUP_KAMINO_PYTH} /\ o.kind = "pyth") \/ (setup = SETUP_SWB /\ o.kind = "swb")
+                  ELSE IF kam /\ poolOk THEN KaminoAdj(raw, ratio)
+                  ELSE IF dri /\ poolOk THEN DriftAdj(raw, mkt.cum) ELSE raw
+      AdjC(raw) == IF kam /\ poolOk THEN KaminoAdj(raw, ratio) ELSE IF dri /\ poolOk THEN DriftAdj(raw, mkt.cum) ELSE raw
+      kindOk == (setup \in {SETUP_PYTH, SETUP_STAKED, SETUP_KAMINO_PYTH, SETUP_DRIFT_PYTH} /\ o.kind = "pyth") \/ (setup = SETUP_SWB /\ o.kind = "swb")
       authentic == kindOk /\ o.owner_ok /\ o.discr_ok /\ o.live /\ (o.kind = "pyth" => o.verif_ok) /\ poolOk
       age == BSub(now, o.ts)
       fresh == BLe(age, BOfInt(MaxAge(b)))
@@ -170,7 +181,7 @@ Hypo(s, a, bn, dl, da) ==
   IN [a EXCEPT !.bal[i] = [cur EXCEPT !.l = BAdd(@, dl), !.a = BSub(@, da)]]
 
 C04(pre, e, post, line) ==
-  (e.ev \in {"borrow", "withdraw"} /\ Has(pre.accts, e.a.acct) /\ Has(pre.banks, e.a.bank)) =>
+  (e.ev \in {"borrow", "withdraw", "kamino_withdraw", "drift_withdraw"} /\ Has(pre.accts, e.a.acct) /\ Has(pre.banks, e.a.bank)) =>
     LET an == e.a.acct bn == e.a.bank ap == pre.accts[an] b == pre.banks[bn] IN
     /\ (Ok(e) /\ ~Bit(ap.flags, ACC_FLASHLOAN) /\ ~Bit(ap.flags, ACC_RECEIVERSHIP)) =>
          LET a == post.accts[an] h == HealthRef(post, e, a, "Init", "fav") IN
@@ -180,7 +191,7 @@ C04(pre, e, post, line) ==
            /\ Chk("C04", "debt_is_never_valued_without_a_usable_price", line, ~h.liabNoPrice, [acct |-> an])
            /\ Chk("C04", "isolated_debt_is_the_only_debt", line,
                   IsoDebts(post, a) = {} \/ Cardinality(DebtSlots(a)) = 1, [acct |-> an])
-    /\ (~Ok(e) /\ e.err = "RiskEngineInitRejected" /\ Plain(e.a) /\ b.last_update = pre.clock.ts
+    /\ (~Ok(e) /\ e.ev \in {"borrow", "withdraw"} /\ e.err = "RiskEngineInitRejected" /\ Plain(e.a) /\ b.last_update = pre.clock.ts
          /\ Has(pre.mints, b.mint) /\ pre.mints[b.mint].fee_bps = 0 /\ BIsZero(b.cfg.init_limit)) =>
          LET slot == SlotsOf(ap, bn)
              curA == PosBits(ap, bn, "a") curL == PosBits(ap, bn, "l")
@@ -327,7 +338,8 @@ C09(pre, e, post, line) ==
          (q.cache.price_ts # b.cache.price_ts \/ q.cache.price # b.cache.price) =>
            \* (the cache is refreshed at the end of the instruction: a venue reserve is read as the instruction, or an earlier
            \*  instruction of the same transaction, left it)
-           LET preV == IF Has(post, "reserves") /\ Has(pre, "reserves") THEN [pre EXCEPT !.reserves = post.reserves] ELSE pre
+           LET preV0 == IF Has(post, "reserves") /\ Has(pre, "reserves") THEN [pre EXCEPT !.reserves = post.reserves] ELSE pre
+               preV == IF Has(post, "markets") /\ Has(pre, "markets") THEN [preV0 EXCEPT !.markets = post.markets] ELSE preV0
                pr == RefPrice(preV, e, bn, "RT") IN
            pr.known =>
              /\ Chk("C09", "cached_price_only_from_usable_oracle", line, pr.usable # "no", [bank |-> bn, ev |-> e.ev])
@@ -338,7 +350,7 @@ C09(pre, e, post, line) ==
                          RLe(RAbs(RSub(R(q.cache.price_conf), pr.ci)), RMul(TINY, RAdd(ROne, RAdd(RAbs(pr.p), pr.ci)))), [bank |-> bn])
   \* an accepted borrow / withdrawal: a position whose price is unusable (stale, substituted, unauthentic, confidence beyond
   \* the maximum, venue reserve not refreshed) counted for nothing - the account is initially healthy without it
-  /\ (e.ev \in {"borrow", "withdraw", "kamino_withdraw"} /\ Ok(e) /\ Has(e.a, "acct") /\ Has(post.accts, e.a.acct)) =>
+  /\ (e.ev \in {"borrow", "withdraw", "kamino_withdraw", "drift_withdraw"} /\ Ok(e) /\ Has(e.a, "acct") /\ Has(post.accts, e.a.acct)) =>
        LET a == post.accts[e.a.acct]
            bad == {i \in ActiveSlots(a) : BGe(a.bal[i].a, FOne) /\ LET pr == RefPrice(post, e, a.bal[i].bank, "TW") IN pr.known /\ pr.usable = "no"}
            hasDebt == \E i \in ActiveSlots(a) : BGe(a.bal[i].l, FOne)
@@ -390,13 +402,13 @@ ConfigValid(b, g) ==
                       /\ ~BIsNeg(en.init) /\ BLe(en.init, en.maint)
                       /\ LeverageOk(R(en.init), lwi, g.emode_max_init) /\ LeverageOk(R(en.maint), lwm, g.emode_max_maint)
                 /\ \A i \in ents, j \in ents : (i # j) => b.emode.entries[i].tag # b.emode.entries[j].tag]
-ConfigOps == {"add_bank", "configure_bank", "configure_interest", "configure_limits", "configure_emode", "clone_emode", "propagate_staked", "migrate_curve"}
+ConfigOps == {"add_bank", "add_bank_kamino", "add_bank_drift", "configure_bank", "configure_interest", "configure_limits", "configure_emode", "clone_emode", "propagate_staked", "migrate_curve"}
 C13(pre, e, post, line) ==
   /\ (IsProgramEvent(e) /\ Ok(e)) =>
        \A bn \in DOMAIN post.banks :
          LET q == post.banks[bn] g == post.groups[q.group]
              changed == ~Has(pre.banks, bn) \/ pre.banks[bn].cfg # q.cfg \/ pre.banks[bn].emode # q.emode
-         IN (changed /\ q.cfg.asset_tag \in {0, 1, 2, 3}) =>
+         IN (changed /\ q.cfg.asset_tag \in {0, 1, 2, 3, 4}) =>
             LET v == ConfigValid(q, g) IN
             /\ Chk("C13", "weights_coherent", line, v.weights, [bank |-> bn, ev |-> e.ev])
             /\ Chk("C13", "isolated_has_zero_asset_weights", line, v.isolated, [bank |-> bn, ev |-> e.ev])
